@@ -163,6 +163,8 @@ def run(ctx, rep):
     rule_finished_only_processed(P, rep, 'R-C12-8')
     from .C17 import chsize_full_size_rule
     chsize_full_size_rule(P, rep, 'R-C12-9')
+    from .C18 import selection_effects_rule
+    selection_effects_rule(P, rep, 'R-C12-10')
     nofollow_rule(P, rep, 'R-C12-3n')
     touch_disk_nsec_rule(P, rep, 'R-C12-5d')
     atime_kept_rule(P, rep, 'R-C12-5a')
